@@ -504,6 +504,13 @@ pub fn normalise(s: &str) -> String {
 pub fn normalised_log(obs: &Observation) -> String {
     let mut s = String::new();
     for e in &obs.log {
+        if let LogEv::FsSnapshot { phase, root, entries } = &e.ev {
+            // randomly named directories sort differently from run to run
+            let mut es: Vec<String> = entries.iter().map(|x| normalise(x)).collect();
+            es.sort();
+            s.push_str(&format!("{{\"seq\":{},\"t\":{},\"ev\":\"fs_snapshot\",\"phase\":{:?},\"root\":{:?},\"entries\":{:?}}}\n", e.seq, e.t, phase, normalise(root), es));
+            continue;
+        }
         s.push_str(&normalise(&serde_json::to_string(e).unwrap()));
         s.push('\n');
     }
